@@ -218,7 +218,10 @@ def unit_bd_head(vectors="none", hermitian=True, solver="none", direct=True, h_s
             if okk:
                 h, vecs, so = log["kpm"][0]
                 eng.oblige("KPM-solver:gets-h_0-and-the-normalised-right-vectors", z3.BoolVal(h is h0 and [*eng.as_seq(vecs).items] == R))
-                eng.oblige("KPM-solver:gets-the-callers-options", z3.BoolVal(isinstance(so, dict) and set(so) == set(opts or {}) and all(so[k] is (opts or {})[k] for k in so)), detail=repr(so))
+                want_so = dict(opts or {})
+                want_so.setdefault("eigenvalue_atol", ATOL)        # like the direct solver: the caller's atol decides which explicit energies are equal unless the caller chose a tolerance
+                eng.oblige("KPM-solver:gets-the-callers-options-and-the-callers-atol-as-default-eigenvalue-tolerance",
+                           z3.BoolVal(isinstance(so, dict) and set(so) == set(want_so) and all(so[k] is want_so[k] for k in so)), detail=repr(so))
         # ---- hand-over ------------------------------------------------------------------------------------------------
         eng.oblige("hand-over:the-unpacked-series", z3.BoolVal(ham is series))
         eng.oblige("hand-over:name-H", z3.BoolVal(kw.get("name") == "H"))
